@@ -320,86 +320,8 @@ impl Prog {
         g
     }
 
-    /// Encode as ModelProto bytes. Tensors and value infos are encoded by the
-    /// shared `vp-onnx` encoder; the GraphProto / NodeProto / ModelProto framing
-    /// is a copy of `vp_onnx::{Graph,Node}::encode` with one difference:
-    /// `ints` attributes are written unpacked (one varint field per element, the
-    /// proto2 default that ONNX exporters produce). rten's decoder rejects the
-    /// packed form that `vp_onnx::Attr::Ints` writes ("field type mismatch").
     pub fn to_bytes(&self) -> Vec<u8> {
-        use ox::pb::Msg;
-        let g = self.to_onnx();
-        let mut gm = Msg::new();
-        for n in &g.nodes {
-            let mut m = Msg::new();
-            for i in &n.inputs {
-                m.string(1, i);
-            }
-            for o in &n.outputs {
-                m.string(2, o);
-            }
-            if !n.name.is_empty() {
-                m.string(3, &n.name);
-            }
-            m.string(4, &n.op_type);
-            for (name, a) in &n.attrs {
-                let mut am = Msg::new();
-                am.string(1, name);
-                match a {
-                    ox::Attr::Int(i) => {
-                        am.varint(3, *i as u64);
-                        am.varint(20, 2);
-                    }
-                    ox::Attr::Float(f) => {
-                        am.fixed32(2, f.to_bits());
-                        am.varint(20, 1);
-                    }
-                    ox::Attr::Str(s) => {
-                        am.bytes(4, s.as_bytes());
-                        am.varint(20, 3);
-                    }
-                    ox::Attr::Ints(v) => {
-                        for x in v {
-                            am.varint(8, *x as u64);
-                        }
-                        am.varint(20, 7);
-                    }
-                    ox::Attr::Tensor(t) => {
-                        am.msg(5, &t.encode());
-                        am.varint(20, 4);
-                    }
-                    _ => vp_core::machinery_error("attribute kind not used by this engine"),
-                }
-                m.msg(5, &am);
-            }
-            if !n.domain.is_empty() {
-                m.string(7, &n.domain);
-            }
-            gm.msg(1, &m);
-        }
-        gm.string(2, &g.name);
-        for t in &g.initializers {
-            gm.msg(5, &t.encode());
-        }
-        for v in &g.inputs {
-            gm.msg(11, &v.encode());
-        }
-        for v in &g.outputs {
-            gm.msg(12, &v.encode());
-        }
-        let mut m = Msg::new();
-        m.varint(1, 8);
-        m.string(2, "vp-onnx");
-        m.msg(7, &gm);
-        let mut os = Msg::new();
-        os.string(1, "");
-        os.varint(2, ox::DEFAULT_OPSET as u64);
-        m.msg(8, &os);
-        let mut ms = Msg::new();
-        ms.string(1, "com.microsoft");
-        ms.varint(2, 1);
-        m.msg(8, &ms);
-        m.into_bytes()
+        ox::model_bytes(&self.to_onnx())
     }
 
     pub fn to_json(&self) -> Json {
